@@ -1406,10 +1406,41 @@ def gen_extension(rng, ir, explicit_schema_block):
     if base_dirs and rng.random() < 0.35:
         for _k in range(rng.choice([1, 2])):
             items.append(("xdirective", rng.choice(base_dirs), None, applied()))
+    # extensions of the *specified* directives (shared global objects in every schema); they are
+    # outside the printed content, so the expected content does not change
+    if rng.random() < 0.45:
+        deprecated_once = set()
+        for _k in range(rng.choice([1, 2, 3])):
+            n = rng.choice(specified_directive_names())
+            if rng.random() < 0.5 and n not in deprecated_once:
+                deprecated_once.add(n)
+                items.append(("xdirective", n, rng.choice(ADVERSARIAL + ["No longer supported"]), ""))
+            else:
+                items.append(("xdirective", n, None, applied()))
+    # extensions of built-in scalars: accepted against a schema, but `A + B` alone is not a valid
+    # document then ("Cannot extend type 'String' because it is not defined"), see has_builtin_ext
+    if rng.random() < 0.15:
+        for _k in range(rng.choice([1, 2])):
+            # only scalars the type map of build(A) contains can be extended
+            present = ["String", "Boolean"] + sorted(
+                {named_of(a["type"]) for a in all_args_of(base["types"], base["directives"])}
+                | {named_of(f["type"]) for t in base["types"] if t["kind"] in ("object", "interface") for f in t["fields"]}
+            )
+            items.append(("xbuiltin", rng.choice([n for n in present if n in STD_SCALARS]), applied()))
     # document order: any order; the combined content follows document order, so recompute it
     rng.shuffle(items)
     comb = apply_items(base, items)
     return items, comb
+
+
+def specified_directive_names():
+    from graphql.type import specified_directives
+
+    return [d.name for d in specified_directives]
+
+
+def has_builtin_ext(items):
+    return any(it[0] == "xbuiltin" for it in items)
 
 
 def apply_items(base, items):
@@ -1460,6 +1491,8 @@ def items_to_sdl(items, rng):
             ap = it[2] if len(it) > 2 else ""
             ops = (" {\n" + "\n".join(f"  {op}: {n}" for op, n in it[1].items()) + "\n}") if it[1] else ""
             out.append("extend schema" + ap + ops)
+        elif it[0] == "xbuiltin":
+            out.append(f"extend scalar {it[1]}{it[2]}")
         elif it[0] == "xdirective":
             out.append(f"extend directive @{it[1]}{sdl_depr(it[2], rng)}{it[3] if len(it) > 3 else ''}")
         else:
